@@ -93,12 +93,13 @@ pub fn mask_to_vec(mask: u32, n: usize) -> Vec<usize> {
 }
 
 /// Lengths just below, at and just above the powers of two a size threshold (chunking, a fast path
-/// for short inputs, a small-vector capacity) would sit at: 2^4, 2^6 (quick: 2^8 too, thorough: up
+/// for short inputs, a small-vector capacity) would sit at: 2^4 .. 2^8 (thorough: up
 /// to 2^10 / 2^12). The exhaustive short strings cannot reach such thresholds; the "long" families
 /// are a structured, fully enumerated supplement (pattern x length x position of a disturbance).
 pub fn threshold_lengths(max_pow: u32) -> Vec<usize> {
     let mut v = vec![];
-    for p in [4u32, 6, 8, 10, 12, 16] {
+    // (2^5 and 2^7 as well: a 32-slot buffer, a 64-bit word of 2-bit cells, a signed byte)
+    for p in [4u32, 5, 6, 7, 8, 10, 12, 16] {
         if p <= max_pow {
             let n = 1usize << p;
             v.extend([n - 1, n, n + 1]);
